@@ -687,6 +687,12 @@ func (u *Unmarshaler) processFieldPrimitiveWithJSONNumber(fieldType reflect.Type
 			return fmt.Errorf("parsing %q as float32: value out of range", v.String())
 		}
 
+		// round the literal once, like encoding/json and the slice/map element path,
+		// instead of rounding its nearest float64 a second time.
+		if fValue, err = strconv.ParseFloat(v.String(), 32); err != nil {
+			return err
+		}
+
 		target.SetFloat(fValue)
 	case reflect.Float64:
 		fValue, err := v.Float64()
